@@ -111,9 +111,13 @@ def main():
     ap.add_argument('--keep', action='store_true')
     ap.add_argument('--skip-tests', action='store_true')
     ap.add_argument('--jobs', type=int, default=2)
+    ap.add_argument('--props', help='comma list: run these checks instead of the ones the mutant names')
     ap.add_argument('--results', help='write a markdown table of the outcomes here')
     args = ap.parse_args()
     muts = discover(args.only + args.names)
+    if args.props:
+        for m in muts:
+            m['props'] = args.props.split(',')
     if not muts:
         print('no mutants selected')
         return 2
